@@ -482,6 +482,13 @@ fn gather_builtin_features_from_flags_in_gitconfig(
     builtin_feature_names.sort();
     for child_feature in builtin_feature_names {
         if let Some(true) = git_config.get::<bool>(&format!("{git_config_key}.{child_feature}")) {
+            // The main section has priority over a feature section: a flag which is false there
+            // is false, and does not enable the builtin feature either.
+            if git_config_key != "delta"
+                && git_config.get::<bool>(&format!("delta.{child_feature}")) == Some(false)
+            {
+                continue;
+            }
             gather_builtin_features_recursively(child_feature, features, builtin_features, opt);
         }
     }
